@@ -109,12 +109,12 @@ package keeper
 //@ extern keeper.(EscrowKeeper).AccountClose(recv, ctx, id)
 //@   modifies ghost KVhas, ghost KVval, ghost G, ghost Bank, ghost Mod, ghost It_all, ghost EvN, ghost EvLog
 //@   ensures id.Scope == "bid" ==> EvN == old(EvN) && EvLog == old(EvLog)
-//@        && (forall sk: iface :: sk != mktEscrowSKey() ==> KVhas[sk] == old(KVhas)[sk] && KVval[sk] == old(KVval)[sk])
+//@        && (forall sk: iface {KVval[sk]} :: sk != mktEscrowSKey() ==> KVhas[sk] == old(KVhas)[sk] && KVval[sk] == old(KVval)[sk])
 //@ extern keeper.(EscrowKeeper).PaymentClose(recv, ctx, id, pid)
 //@   modifies ghost KVhas, ghost KVval, ghost G, ghost Bank, ghost Mod, ghost It_all, ghost EvN, ghost EvLog, ghost PayCloseReq
 //@   ensures PayCloseReq == old(PayCloseReq)[id.XID := old(PayCloseReq)[id.XID][pid := true]]
 //@   ensures EvN >= old(EvN) && (forall j: int :: 0 <= j && j < old(EvN) ==> EvLog[j] == old(EvLog)[j])
-//@   ensures forall sk: iface :: sk != mktEscrowSKey() ==> keepsClosed(old(KVhas)[sk], old(KVval)[sk], KVhas[sk], KVval[sk])
+//@   ensures forall sk: iface {KVval[sk]} :: sk != mktEscrowSKey() ==> keepsClosed(old(KVhas)[sk], old(KVval)[sk], KVhas[sk], KVval[sk]) && depKeeps(old(KVhas)[sk], old(KVval)[sk], KVhas[sk], KVval[sk])
 
 //@ func (Keeper).GetOrder
 //@   ensures result1 <==> KVhas[k.skey][orderKeyOf(id)]
@@ -177,7 +177,7 @@ package keeper
 //@                KVhas[k.skey] == old(KVhas)[k.skey][bidKeyOf(bid.BidID) := true]
 //@                && KVval[k.skey] == old(KVval)[k.skey][bidKeyOf(bid.BidID) := encode(upd(bid, State, types.BidClosed))]
 //@                && EvN == old(EvN) + 1 && EvLog == old(EvLog)[old(EvN) := sigBid(2, bid.BidID, bid.Price)]
-//@   ensures [others] forall sk: iface :: sk != mktEscrowSKey() && sk != k.skey ==> KVhas[sk] == old(KVhas)[sk] && KVval[sk] == old(KVval)[sk]
+//@   ensures [others] forall sk: iface {KVval[sk]} :: sk != mktEscrowSKey() && sk != k.skey ==> KVhas[sk] == old(KVhas)[sk] && KVval[sk] == old(KVval)[sk]
 //@ func (Keeper).OnOrderClosed
 //@   modifies ghost KVhas, ghost KVval, ghost G, ghost EvN, ghost EvLog
 //@   ensures [noop] order.State == types.OrderClosed ==> KVhas == old(KVhas) && KVval == old(KVval) && EvN == old(EvN) && EvLog == old(EvLog)
@@ -240,7 +240,7 @@ package keeper
 //@ func (Keeper).OnGroupClosed$1$1
 //@   requires k.skey != mktEscrowSKey()
 //@   modifies ghost KVhas, ghost KVval, ghost G, ghost Bank, ghost Mod, ghost It_all, ghost EvN, ghost EvLog, ghost PayCloseReq
-//@   uses keepsClosedTrans, keepsClosedRefl, orderBidDisjoint, orderLeaseDisjoint, bidLeaseDisjoint
+//@   uses keepsClosedTrans, keepsClosedRefl, depKeepsTrans, depKeepsRefl, orderBidDisjoint, orderLeaseDisjoint, bidLeaseDisjoint
 //@   ensures [walk] !result
 //@   ensures [keeps] keepsClosed(old(KVhas)[k.skey], old(KVval)[k.skey], KVhas[k.skey], KVval[k.skey])
 //@   ensures [bid] bid.State != types.BidLost && bid.State != types.BidClosed ==>
@@ -249,26 +249,31 @@ package keeper
 //@                leaseOf(KVval[k.skey], leaseOf(old(KVval)[k.skey], asLease(bid.BidID)).LeaseID).State != types.LeaseActive
 //@   ensures [payment] old(KVhas)[k.skey][leaseKeyOf(asLease(bid.BidID))] ==>
 //@                PayCloseReq[depXID(upd(upd(zeroDID(), Owner, id.Owner), DSeq, id.DSeq))][leasePID(leaseOf(old(KVval)[k.skey], asLease(bid.BidID)).LeaseID)]
+//@   ensures [dep] forall sk: iface {KVval[sk]} :: sk != mktEscrowSKey() && sk != k.skey ==> depKeeps(old(KVhas)[sk], old(KVval)[sk], KVhas[sk], KVval[sk])
 //@   ensures [events] EvN >= old(EvN) && (forall j: int :: 0 <= j && j < old(EvN) ==> EvLog[j] == old(EvLog)[j])
 //@ spec zeroDID(): dtypes.DeploymentID
 //@ func (Keeper).OnGroupClosed$1
 //@   requires k.skey != mktEscrowSKey()
 //@   modifies ghost KVhas, ghost KVval, ghost G, ghost Bank, ghost Mod, ghost It_all, ghost EvN, ghost EvLog, ghost PayCloseReq
-//@   uses keepsClosedTrans, keepsClosedRefl, orderBidDisjoint, orderLeaseDisjoint, bidLeaseDisjoint
+//@   uses keepsClosedTrans, keepsClosedRefl, depKeepsTrans, depKeepsRefl, orderBidDisjoint, orderLeaseDisjoint, bidLeaseDisjoint
 //@   call 1 invariant keepsClosed(atloop(KVhas)[k.skey], atloop(KVval)[k.skey], KVhas[k.skey], KVval[k.skey])
 //@   call 1 invariant !cbstop && EvN >= atloop(EvN) && (forall j: int :: 0 <= j && j < atloop(EvN) ==> EvLog[j] == atloop(EvLog)[j])
 //@   ensures [walk] !result
 //@   ensures [keeps] keepsClosed(old(KVhas)[k.skey], old(KVval)[k.skey], KVhas[k.skey], KVval[k.skey])
 //@   call 1 invariant order.State != types.OrderClosed ==> ordOf(KVval[k.skey], order.OrderID).State == types.OrderClosed
+//@   call 1 invariant forall sk: iface {KVval[sk]} :: sk != mktEscrowSKey() && sk != k.skey ==> depKeeps(atloop(KVhas)[sk], atloop(KVval)[sk], KVhas[sk], KVval[sk])
 //@   ensures [order] order.State != types.OrderClosed ==> ordOf(KVval[k.skey], order.OrderID).State == types.OrderClosed
+//@   ensures [dep] forall sk: iface {KVval[sk]} :: sk != mktEscrowSKey() && sk != k.skey ==> depKeeps(old(KVhas)[sk], old(KVval)[sk], KVhas[sk], KVval[sk])
 //@   ensures [events] EvN >= old(EvN) && (forall j: int :: 0 <= j && j < old(EvN) ==> EvLog[j] == old(EvLog)[j])
 //@ func (Keeper).OnGroupClosed
 //@   requires k.skey != mktEscrowSKey()
 //@   modifies ghost KVhas, ghost KVval, ghost G, ghost Bank, ghost Mod, ghost It_all, ghost EvN, ghost EvLog, ghost PayCloseReq
-//@   uses keepsClosedTrans, keepsClosedRefl
+//@   uses keepsClosedTrans, keepsClosedRefl, depKeepsTrans, depKeepsRefl
 //@   call 1 invariant keepsClosed(atloop(KVhas)[k.skey], atloop(KVval)[k.skey], KVhas[k.skey], KVval[k.skey])
 //@   call 1 invariant !cbstop && EvN >= atloop(EvN) && (forall j: int :: 0 <= j && j < atloop(EvN) ==> EvLog[j] == atloop(EvLog)[j])
+//@   call 1 invariant forall sk: iface {KVval[sk]} :: sk != mktEscrowSKey() && sk != k.skey ==> depKeeps(atloop(KVhas)[sk], atloop(KVval)[sk], KVhas[sk], KVval[sk])
 //@   ensures [keeps] keepsClosed(old(KVhas)[k.skey], old(KVval)[k.skey], KVhas[k.skey], KVval[k.skey])
+//@   ensures [dep] forall sk: iface {KVval[sk]} :: sk != mktEscrowSKey() && sk != k.skey ==> depKeeps(old(KVhas)[sk], old(KVval)[sk], KVhas[sk], KVval[sk])
 //@   ensures [events] EvN >= old(EvN) && (forall j: int :: 0 <= j && j < old(EvN) ==> EvLog[j] == old(EvLog)[j])
 
 // the number of bids on an order (C08: bid cap)
